@@ -1,10 +1,13 @@
-"""C07 -- detection does not depend on position or surrounding unrelated text.  T: X alone vs P.X.S, TraceV2 Pair(shift); the known clamp finding is recognised by its hook signature."""
+"""C07 -- detection does not depend on position or surrounding unrelated text.  M/G: V2Match at threshold 0.5 (fuseRanges as built, replayed stage by stage).  T: X alone vs P.X.S, TraceV2 Pair(shift); the known clamp finding is recognised by its hook signature."""
 import time
 from lib import vlib
-from checks.v2common import Acc, trace_leg
+from checks.v2common import Acc, trace_leg, match_model, match_replay
 PID = "C07"
 def run():
     t0 = time.time(); v = vlib.Verdict(PID); acc = Acc()
+    th = vlib.TIER == "thorough"
+    match_model(acc, ["T50"])
+    match_replay(v, acc, ["T50"], 4 if th else 3, 6 if th else 5)               # the fusion-rich threshold: offsets, clamp, filter
     recs, lines = trace_leg(v, acc, "c07", [PID])
     ps = [r for r in lines if r.get("ev") == "pair"]
     acc.nontrivial = len({r["label"] for r in ps}); acc.extra["pairs"] = len(ps)
